@@ -27,15 +27,19 @@ def c19():
             dict(name="ipstr-msan", bin="misc", config="msan", mode="ipstr", cases=T(1500, 40000)),
             dict(name="ipstr-plain", bin="misc", config="plain", mode="ipstr", cases=T(1500, 40000)),
             dict(name="ip6-msan", bin="misc", config="msan", mode="ip6", cases=T(256, 2560)),
+            dict(name="concurrent", bin="misc", config="asan", mode="ipmt", cases=T(16, 320), chunks=16),
         ],
-        floors={"c19/roundtrips": T(100000, 1000000), "c19/strings_accepted_by_inet_pton": T(50000, 500000)},
+        floors={"c19/roundtrips": T(100000, 1000000), "c19/strings_accepted_by_inet_pton": T(50000, 500000),
+                "c19/concurrent_roundtrips": T(3000000, 60000000)},
         rule=("ip4: batches of 512 IPv4 addresses (boundary-octet grid, random, stride); ip6: 48 addresses per case with "
               "zero-group pattern case%256 and boundary group values plus the embedded-IPv4 shapes; ipstr: per address the "
               "inet_ntop text, the library text, full/zero-padded/upper-case spellings, '::' over every zero run at every "
               "position, embedded-IPv4 tails, every truncation and random single-character substitutions/insertions/"
               "deletions. Oracles: library and inet_pton parse the library's text back to the same address; every string "
               "inet_pton accepts is accepted with the same value (lrtr_ip_str_cmp agrees); every parse is done twice with "
-              "0x00/0xFF pre-filled output and stack and must agree (MSan build: result fully initialised); output "
+              "0x00/0xFF pre-filled output and stack, once with errno = ERANGE and once with errno = 0 on entry, and must agree "
+              "(MSan build: result fully initialised); concurrent: 4 threads round-trip 8 addresses of their own 60000 times each "
+              "at the same time (text -> inet_pton and library parse -> same address); output "
               "buffers are heap blocks of exactly the announced length 0..64 (ASan red zone). Non-trivial = an address "
               "round-tripped or a string accepted by inet_pton; distinct by hash of the address / string."),
         assumptions=["glibc inet_pton/inet_ntop are the platform reference", "ASan red zones catch writes past the announced length"],
@@ -51,13 +55,18 @@ def c20():
         id="C20", level="exploration", engine="misc", exhaustive=True,
         prebuild=enumgen.generate,
         builds=[dict(name="misc", config="asan", harness=["misc.c"])],
-        runs=[dict(name="enum", bin="misc", config="asan", mode="enum", cases=n, chunks=n)],
-        floors={"c20/enumerators_probed": len(st) + len(ms), "c20/outside_values_probed": 16},
+        runs=[dict(name="enum", bin="misc", config="asan", mode="enum", cases=n, chunks=n),
+              dict(name="held-and-concurrent", bin="misc", config="asan", mode="enumheld", cases=T(3, 17), chunks=17)],
+        floors={"c20/enumerators_probed": len(st) + len(ms), "c20/outside_values_probed": 16,
+                "c20/held_names_compared": 2 * (len(st) + len(ms)), "c20/concurrent_conversions_compared": T(1000000, 10000000)},
         rule=("one case per (function, value): every enumerator of enum rtr_socket_state / enum rtr_mgr_status as parsed "
               "from the public headers of the tree under test must map to its identifier; last+1, last+2, -1, -2, 64, 255, "
               "256, 4096, 65536, INT_MAX, INT_MIN must map to NULL; -fsanitize=bounds is fatal so an index outside the "
               "name table is reported at the index expression. Every probe runs in its own process so one abort does not "
-              "hide the others. Exhaustive over the declared enumerators; all probes are non-trivial and distinct."),
+              "hide the others. Exhaustive over the declared enumerators; all probes are non-trivial and distinct. held-and-concurrent: "
+              "the names of all enumerators are collected first and compared afterwards, and again after a second pass over all "
+              "values in reverse order (a name a caller holds must not change when another value is converted); then 4 threads "
+              "convert different values 200000 times each at the same time and compare a copy of every result."),
         assumptions=["the header parser (lib/enumgen.py) reads plain C enumerator lists"],
     )
 
@@ -292,7 +301,8 @@ PFX_RULE = ("Histories of 10..70 operations (add, duplicate add, remove, remove 
             "over a nesting-rich universe: 2-4 trunk addresses per family that share long prefixes, every length 0..32 / 0..128 incl. "
             "/0 and full length, sibling bit flips, max-length from {len, len+1, full, <len, 255, random}, AS from {0,1,2,3,random,2^32-1}, "
             "3 sources; every 16th case builds the chain of all 33/129 prefixes of one address in ascending, descending or random "
-            "order; pfxbig builds tables of thousands of realistic records. ")
+            "order; pfxbig builds tables of thousands of realistic records; every 16th case ends with two threads adding 32 "
+            "identical records at the same instant (one add each succeeds, one reports a duplicate, each record enumerated once). ")
 
 
 def c01():
@@ -320,7 +330,7 @@ def c02():
         id="C02", level="exploration", engine="tabmon",
         builds=[_tab_build()],
         runs=[_tab_run("pfx", 4800, 96000), _tab_run("pfxbig", 16, 160, args=["records=6000"])],
-        floors={"c02/enumerations_compared": T(150000, 3000000), "c02/op/remove": T(30000, 600000), "c02/src_remove_nonempty": T(4000, 80000),
+        floors={"c02/identical_records_added_by_two_threads_at_once": T(2000, 40000), "c02/enumerations_compared": T(150000, 3000000), "c02/op/remove": T(30000, 600000), "c02/src_remove_nonempty": T(4000, 80000),
                 "c02/op/add_duplicate": T(8000, 160000), "c02/op/remove_absent": T(20000, 400000)},
         rule=(PFX_RULE + "Oracle: the model is a set of 5-tuples (prefix, len, max-len, AS, source); every operation's return code must be "
               "the model's (SUCCESS / DUPLICATE_RECORD / RECORD_NOT_FOUND) and after EVERY operation the concatenation of "
@@ -357,7 +367,7 @@ def c10():
         id="C10", level="exploration", engine="tabmon+rtrsim",
         builds=[_tab_build(), _sim_build()],
         runs=[_tab_run("spki", 640, 12800), _sim_run("reload", 400, 8000), _sim_run("stops", 300, 6000)],
-        floors={"c10/get_all_checked": T(500000, 10000000), "c10/search_by_ski_checked": T(100000, 2000000), "c10/copy_swap_diff_cycles": T(1500, 30000),
+        floors={"c10/identical_keys_added_by_two_threads_at_once": T(2000, 40000), "c10/get_all_checked": T(500000, 10000000), "c10/search_by_ski_checked": T(100000, 2000000), "c10/copy_swap_diff_cycles": T(1500, 30000),
                 "c10/histories_crossing_grow_step": T(300, 6000), "c10/histories_shrinking_below_eighth": T(100, 2000), "c10/callbacks": T(200000, 4000000)},
         rule=("Histories over router keys (three in four shaped like real ones: the 27 leading bytes common to every P-256 "
               "SubjectPublicKeyInfo, two differing bytes somewhere in the point) with 5 shared SKIs and AS numbers found by a start-up search to collide in the low 10 bits of "
@@ -367,7 +377,8 @@ def c10():
               "notify_diff, plus a raw swap. Oracle: flat model of (AS, SKI, key, source); return codes must be the model's; after every "
               "operation get_all(AS, SKI) for all 65 pairs (sampled when the table is large) and search_by_ski for all SKIs must be "
               "multiset-equal to the model; the spki_update_fp callbacks are replayed and must reproduce the table, also inside rtrsim "
-              "(reloads, stop, expiry). Distinct by history hash."),
+              "(reloads, stop, expiry). Every fourth case ends with two threads adding 32 byte-identical keys at the same instant (spin "
+              "barrier): exactly one add per key succeeds, the other reports a duplicate, the table holds the key once. Distinct by history hash."),
         assumptions=TAB_ASSUME,
     )
 
